@@ -321,7 +321,7 @@ func genC07b(tier string, r *rng) {
 			// the whole text in ONE final frame (ReadMessage then uses a fixed buffer + io.ReadFull), alone and
 			// followed by another message, for every transport chunking up to the payload length
 			for k := 0; k <= len(s)+1 && k < 8; k++ {
-				for _, fin := range []string{"E", "Ed"} {
+				for _, fin := range []string{"E", "Ed", "Fd"} { // Fd: the last bytes arrive together with a transport failure
 					one := encodeStream([]gframe{{true, 0, ws.OpText, s}}, server, r)
 					two := encodeStream([]gframe{{true, 0, ws.OpText, s}, {true, 0, ws.OpText, []byte("z\xc3\xa9")}}, server, r)
 					run(fmt.Sprintf("rm %d %s %d %s", st, hx(one), k, fin))
